@@ -69,11 +69,11 @@ CHECKS = {
           "each discharged on every path by a forward length-domain abstract interpretation with helper summaries, an "
           "infallible-producer list, a dominating Some/Ok test, a constant divisor or a reviewed table line; plus: every "
           "compile-time CLVM evaluation started by the compiler is step-bounded and the evaluator tests the bound before each "
-          "step. Decides this structural clause, not termination or the located-error clause. Found F3, F4, F5 (fixed).",
+          "step. Decides this structural clause, not termination or the located-error clause. Found F3-F5, F9-F14 (fixed).",
   "note": "Not decided (counted in evidence): variable-index accesses, debug-only overflow checks, RefCell double borrows, "
-          "allocation failure, stack depth, panics inside dependencies, general termination. tables/panic_sites.json holds 67 "
+          "allocation failure, stack depth, panics inside dependencies, general termination. tables/panic_sites.json holds the "
           "reviewed sites (classes environment / constant / invariant / caller-guarded / baseline-unproven); wrong reviews are "
-          "possible (one was: F5) and an adversarial re-review is recorded in DESIGN.md.",
+          "possible (three were: F5, F11, F12) and an adversarial re-review is recorded in DESIGN.md.",
   "technique": "MIR abstract interpretation (length domain) + dominance + CHA reachability + reviewed table",
   "design": "3.9",
  },
